@@ -20,16 +20,20 @@ def main(tier, seed):
     jobs = []
     nsan = 8 if q else 12
     for c in range(nsan):
+        heavy = c in (3, 4)  # these two jobs spend their time on the canary / tight-stack workloads
         jobs.append(Job("framework.props.sanrun", "run_sanitized",
-                        {"seed": seed * 911 + c, "calls": 1500 if q else 20000, "models": 25 if q else 400,
-                         "shipped": c < 2, "units": c == 2, "unit_random": 100, "canary": c == 3, "tier": tier,
+                        {"seed": seed * 911 + c, "calls": 200 if heavy else (1500 if q else 20000),
+                         "models": 5 if heavy else (25 if q else 400), "shipped": c < 2, "units": c == 2,
+                         "unit_random": 100, "canary": heavy, "tier": tier, "tight": 40 if q else 400,
                          "deadline_s": 90 if q else 900},
                         mode="interp", env={"NUCS_VERIF_SANITIZER": "1"}, timeout=400 if q else 1800,
                         tag="sanitizer:%d" % c, stall_s=200))
     for c in range(5 if q else 8):
+        heavy = c in (3, 4)
         jobs.append(Job("framework.props.sanrun", "run_bc",
-                        {"seed": seed * 919 + c, "calls": 4000 if q else 60000, "models": 120 if q else 2500,
-                         "shipped": c < 2, "units": c == 2, "unit_random": 400, "canary": c == 3, "tier": tier,
+                        {"seed": seed * 919 + c, "calls": 500 if heavy else (4000 if q else 60000),
+                         "models": 10 if heavy else (120 if q else 2500), "shipped": c < 2, "units": c == 2,
+                         "unit_random": 400, "canary": heavy, "tier": tier, "tight": 80 if q else 800,
                          "deadline_s": 90 if q else 900},
                         mode="bc", timeout=400 if q else 1800, tag="boundscheck:%d" % c, stall_s=200))
     common.run_jobs(jobs)
@@ -51,7 +55,7 @@ def main(tier, seed):
             rep.violation(dict(f, mode=r["mode"]))
         for k, v in r.get("counts", {}).items():
             rep.count("%s.%s" % ("sanitizer" if j.func == "run_sanitized" else "boundscheck", k), v)
-            rep.evaluations += v if k in ("calls", "runs", "shipped", "units", "canary_cases") else 0
+            rep.evaluations += v if k in ("calls", "runs", "shipped", "units", "canary_cases", "tight_stack_cases") else 0
         if j.func == "run_sanitized":
             sz = r["sanitizer"]
             sites = max(sites, sz["sites"])
@@ -75,6 +79,7 @@ def main(tier, seed):
     rep.need("sanitizer.index_evaluations", 200000, "checked index evaluations")
     rep.need("boundscheck.calls", 5000, "bounds-check build propagator calls")
     rep.need("boundscheck.runs", 200, "bounds-check build solver runs")
+    rep.need("boundscheck.tight_stack_cases", 30, "tight-stack searches under canaries")
     rep.assumptions = ["a clean run is not memory safety: only reached sites with the index values that occurred",
                        "compiled-mode negative wrap-around is invisible to the bounds-check build and inferred from the "
                        "source-level sanitizer on the same source",
